@@ -1749,3 +1749,46 @@ mutant("c14-rt-output-terms-before-defuzzifier-lost", "C14", (X, "        if var
 
 # ------------------------------------------------------------------------------------------ tolerance comparisons next to exact ones (rounds 7-8)
 mutant("c03-rectangle-tolerant-start", "C03", (T, "        y = self.height * np.where(np.isnan(x), np.nan, 1.0) * ((s <= x) & (x <= e))", "        y = self.height * np.where(np.isnan(x), np.nan, 1.0) * (((s <= x) | Op.is_close(s, x)) & (x <= e))"), "A3/Rectangle.membership/definition")
+
+# ------------------------------------------------------------------------------------------ C12 O9: what a defuzzifier hands out is its own
+_O9_ANCHOR = """            return f"'{self.name}'"
+
+    def __init__(
+        self,
+        type: str | WeightedDefuzzifier.Type = Type.Automatic,"""
+_O9_SUM = """class WeightedSum(WeightedDefuzzifier):"""
+_O9_DIV = "        y = (weighted_sum / weights).squeeze()  # type: ignore"
+mutant("c12-defuzzifier-returns-kept-array-through-helper", "C12", [
+    (D, _O9_ANCHOR, """            return f"'{self.name}'"
+
+    _undefined = scalar(nan)
+
+    def _empty(self) -> Scalar:
+        return self._undefined
+
+    def __init__(
+        self,
+        type: str | WeightedDefuzzifier.Type = Type.Automatic,"""),
+    (D, _O9_DIV, """        if not fuzzy_output.terms:
+            return self._empty()
+""" + _O9_DIV)], "O9/WeightedAverage.defuzzify/fresh-result")
+equivalent("c12-eq-defuzzifier-returns-kept-float", "C12", [
+    (D, _O9_ANCHOR, """            return f"'{self.name}'"
+
+    _undefined = nan
+
+    def __init__(
+        self,
+        type: str | WeightedDefuzzifier.Type = Type.Automatic,"""),
+    (D, _O9_DIV, """        if not fuzzy_output.terms:
+            return self._undefined
+""" + _O9_DIV)])
+
+# ------------------------------------------------------------------------------------------ AG-sem: the fuzzy output's methods by interpretation
+mutant("c10-group-reuses-activation", "C10", (T, """                groups[activated.term.name] = Activated(
+                    activated.term, activated.degree, implication=None
+                )""", """                groups[activated.term.name] = activated"""), "W-grp/Aggregated.grouped_terms/fresh")
+mutant("c10-group-order-reversed", "C10", (T, "        for activated in self.terms:\n            if activated.term.name not in groups:", "        for activated in reversed(self.terms):\n            if activated.term.name not in groups:"), "W-grp/Aggregated.grouped_terms/order")
+mutant("c10-activation-degree-absent-nan", ["C10", "C06"], (T, "        return activated.degree if activated else scalar(0.0)", "        return activated.degree if activated else scalar(nan)"), "P10/Aggregated.activation_degree/absent")
+mutant("c09-membership-skips-first-term", ["C09", "C01"], (T, "        y = scalar(0.0)\n        for term in self.terms:\n            y = self.aggregation.compute", "        y = scalar(0.0)\n        for term in self.terms[1:]:\n            y = self.aggregation.compute"), "P7/Aggregated.membership/")
+mutant("c19-membership-no-operator-unchecked", ["C19", "C09"], (T, "        if self.terms and not self.aggregation:\n            raise ValueError(\"expected an aggregation operator, but found none\")\n\n        y = scalar(0.0)", "        y = scalar(0.0)"), "P7/Aggregated.membership/no-operator")
